@@ -46,6 +46,8 @@ class C11(Hist1Prop):
         kind = rng.choice(["int", "slice", "slice", "slice", "mask", "array", "array", "badslice"])
         if kind == "int":
             op = {"op": "item", "h": 0, "i": rng.randint(-n - 1, n)}
+            if rng.random() < 0.4:
+                op["ik"] = rng.choice(["int64", "int32", "intp", "int16"])     # a numpy integer is an integer index too
         elif kind == "slice":
             c = [None] + list(range(-n - 2, n + 3))
             op = {"op": "slice", "h": 0, "start": rng.choice(c), "stop": rng.choice(c), "out": 1}
